@@ -14,7 +14,7 @@
         unary    ::= - unary  |  juxt                        minus: the following factor only
         juxt     ::= power    { power }                      juxtaposition = product, tighter than * /
         power    ::= postfix  { ^ exponent }                 left-associative (test_valid_multiple_exponents)
-        exponent ::= - unary  |  postfix
+        exponent ::= - exponent  |  postfix                  a signed exponent is a signed atom: 2^-x^2 = (2^-x)^2
         postfix  ::= atom     { ! }
         atom     ::= number | variable | constant | ( sum ) | function ( sum )
 
@@ -192,7 +192,7 @@ Section Reader.
       | LExponent =>
         match ts with
         | TOp OSub :: r =>
-          match rd n' LUnary r with Some (x, r') => Some (EPre OSub x, r') | None => None end
+          match rd n' LExponent r with Some (x, r') => Some (EPre OSub x, r') | None => None end
         | _ => rd n' LPostfix ts
         end
       | LPostfix =>
